@@ -141,8 +141,8 @@ func checkC18(e *Engine, r *Report) {
 
 	type mod struct {
 		name, root, keeper, types string
-		exportFn, initFn         string
-		exempt                   map[string]string
+		exportFn, initFn          string
+		exempt                    map[string]string
 	}
 	mods := []mod{
 		{"evm", EV + "/x/evm", pkgEvmKeeper, pkgEvmTypes, "ExportGenesis", "InitGenesis", map[string]string{
@@ -451,12 +451,13 @@ func reachesReturnWithoutHeader(fn *ssa.Function, b *ssa.BasicBlock, l *Loop) bo
 }
 
 // importLoopProblems: for every outermost loop of an InitGenesis function
-//  (b) each nested loop (a sub-collection of the record: the storage entries of an account) is visited on every path on
-//      which the iteration completes — with the nested loop's header removed the back edge must be unreachable from the
-//      body entry; paths that panic (validation) do not complete;
-//  (a) a branch inside the loop both sides of which let the iteration complete must not be decided by what the store already
-//      holds (a call that takes the context): importing is a function of the genesis record alone, otherwise the order of the
-//      records — or an earlier record — changes what is written for a later one.
+//
+//	(b) each nested loop (a sub-collection of the record: the storage entries of an account) is visited on every path on
+//	    which the iteration completes — with the nested loop's header removed the back edge must be unreachable from the
+//	    body entry; paths that panic (validation) do not complete;
+//	(a) a branch inside the loop both sides of which let the iteration complete must not be decided by what the store already
+//	    holds (a call that takes the context): importing is a function of the genesis record alone, otherwise the order of the
+//	    records — or an earlier record — changes what is written for a later one.
 func importLoopProblems(e *Engine, fn *ssa.Function) []string {
 	var out []string
 	loops := loopsOf(fn)
